@@ -49,7 +49,10 @@
 //! * c22-p4-isnull-gt1: `IS NULL` rewritten to `null_count > 1`                                 -> VIOLATION after 67 cases
 //! * c22-p1-notlike-any-suffix: NOT LIKE rule applied to any pattern with a constant prefix (`a_`, `a%b`): first run
 //!   stayed green (the string pool had no value between two matching strings that does not match); the pool was
-//!   extended ("aab", "ac", "acb", "abd") and the probe re-run: see probes/batch2-log.txt (verdict recorded there).
+//!   extended ("aab", "ac", "acb", "abd"); the re-run is `VF_PROBE=c22p1` in probes/run-all.sh, verdict in
+//!   probes/run-all-log.txt: VIOLATION after 5 047 cases (`c2 NOT LIKE 'a%b'`, container ["ab".."acb"] holding "abd").
+//! Candidate repairs: /verif/fixes/C22-*.diff (one per finding); with all four applied the four regression cases
+//! pass and `./check C22 quick` exits 0 (seeds 0, 1) — probes/run-all-log.txt.
 use std::collections::HashSet;
 use std::sync::Arc;
 
